@@ -147,7 +147,7 @@ Proof.
 Qed.
 Print Assumptions C17_keepalive_prevents_idle.
 
-(** applyTransportParameters yields 0 <= keepAliveInterval <= idleTimeout/2, so the PING leaves half of the period for its answer *)
+(** applyTP (Go: applyTransport-Params) yields 0 <= keepAliveInterval <= idleTimeout/2, so the PING leaves half of the period for its answer *)
 Theorem C17_keepalive_interval : forall s p pto, 0 <= c_maxIdleTimeout (cf s) -> 0 <= c_keepAlivePeriod (cf s) -> 0 <= pto ->
   sane (applyTP s p) /\ 2 * kaEff (applyTP s p) pto <= idleEff (applyTP s p) pto + 1.
 Proof.
@@ -155,6 +155,21 @@ Proof.
   apply ka_half; [exact Hp| |exact K]. destruct S as [S1 S2]. apply (Z.le_trans _ _ _ S1 S2).
 Qed.
 Print Assumptions C17_keepalive_interval.
+
+(** (c) routing entries: whatever close the loop processed, nothing is registered any more once the closing
+    period is over (and nothing at all for timeouts / destroy). *)
+Theorem C17_routing_released : forall client sf ce elapsed expiry,
+  (expiry <= elapsed -> exit_routing client sf (ExitLoop ce) elapsed expiry = 0) /\
+  (ce_immediate ce = true -> is_remote (mapped_err ce) = false -> exit_routing client sf (ExitLoop ce) elapsed expiry = 0).
+Proof. exact routing_released. Qed.
+Print Assumptions C17_routing_released.
+
+(** REFUTED sub-claim of (c): when run() returns before its loop (StartHandshake fails) the connection stays in
+    the routing table for ever and streams / datagram queue are never closed. *)
+Theorem C17_early_exit_leaks_refuted : exists x, forall client sf elapsed expiry,
+  exit_routing client sf x elapsed expiry <> 0 /\ exit_fanout x = None.
+Proof. exists (ExitEarly (EOther 0)). intros. split; [cbn; discriminate | reflexivity]. Qed.
+Print Assumptions C17_early_exit_leaks_refuted.
 
 (** ** Non-vacuity *)
 
